@@ -93,7 +93,7 @@ class pdb2sql(pdb2sql_base):
         # or we create a new db file
         else:
             if os.path.isfile(sqlfile):
-                sp.call('rm %s' % sqlfile, shell=True)
+                os.remove(sqlfile)
             self.conn = sqlite3.connect(sqlfile)
         self.c = self.conn.cursor()
 
